@@ -89,6 +89,12 @@ FEATURES = [
     ("user_attribute", "class Tag{S} { public $v; function __construct($v = 'd') { $this->v = $v; } }\n#[Tag{S}('on-class')]\nclass Tagged{S} { #[Tag{S}('on-method')] function m() { return 1; } public $p = 1; const C = 2; }\n$rc{S} = new \\ReflectionClass('Tagged{S}');\necho count($rc{S}->getAttributes()), ':';\nforeach ($rc{S}->getAttributes() as $at{S}) { echo $at{S}->getName(), '=', $at{S}->newInstance()->v, ';'; }\necho \"\\n\";"),
     ("reflection_members", "class RM{S} { const A = 1; const B = 'b'; public $p = 1; protected $q = 2; private $r = 3; public static $s = 4; function m1() {} protected function m2() {} static function m3() {} }\n$rr{S} = new \\ReflectionClass('RM{S}');\necho json_encode($rr{S}->getMethods()), json_encode($rr{S}->getProperties()), $rr{S}->hasMethod('m2') ? 'y' : 'n', $rr{S}->getName(), count($rr{S}->getAttributes()), \"\\n\";"),
     ("datetime_fixed", "$dt{S} = new \\DateTime('2001-02-03 04:05:06'); echo $dt{S}->format('Y-m-d H:i:s'), ' '; $dt{S}->setDate(2010, 11, 12); $dt{S}->setTime(13, 14, 15); echo $dt{S}->format('Y-m-d H:i:s'), ' ', $dt{S}->format('D, d M Y'), ' ', $dt{S}->getTimestamp(), \"\\n\";"),
+    ("switch_default_not_last", "function swd{S}($x) { $o = ''; switch ($x) { case 1: $o .= 'one'; default: $o .= 'dflt'; case 2: $o .= 'two'; break; case 3: $o .= 'three'; } return $o; } function swe{S}($x) { switch ($x) { default: return 'd'; case 'a': return 'A'; case 'b': echo 'b-falls '; } return 'end'; } echo swd{S}(1), '|', swd{S}(2), '|', swd{S}(3), '|', swd{S}(9), '|', swe{S}('a'), swe{S}('b'), swe{S}('q'), \"\\n\";"),
+    ("ob_open_at_end_shutdown", "register_shutdown_function(function() { $b{S} = ob_get_clean(); echo 'sd[', ($b{S} === false ? 'F' : $b{S}), ']', ob_get_level(), \"\\n\"; }); echo \"a\\n\"; ob_start(); echo \"buffered\\n\";"),
+    ("class_array_const_keyed", "class LV{S} { const LEVELS = ['debug' => 0, 'info' => 1, 'warning' => 2, 'error' => 3]; const NUMS = [3 => 'a', 10 => 'b', 1 => 'c']; } echo implode(',', array_keys(LV{S}::LEVELS)), ';', json_encode(LV{S}::NUMS), ';'; foreach (LV{S}::LEVELS as $k{S} => $v{S}) { echo $k{S}, '=', $v{S}, ' '; } echo LV{S}::LEVELS['error'], \"\\n\";"),
+    ("class_array_static_keyed", "class LS{S} { public static $map = ['z' => 1, 'a' => 2, 'm' => 3]; public static $list = [3, 1, 2]; } echo json_encode(LS{S}::$map), json_encode(LS{S}::$list), implode(',', array_keys(LS{S}::$map)), \"\\n\";"),
+    ("class_array_const_list", "class LL{S} { const LIST = [3, 1, 2]; const EMPTY = []; } echo json_encode(LL{S}::LIST), count(LL{S}::EMPTY), \"\\n\";"),
+    ("interface_array_const_keyed", "interface HC{S} { const ORDER = ['y' => 1, 'b' => 2, 'k' => 3]; } class HI{S} implements HC{S} {} echo implode(',', array_keys(HC{S}::ORDER)), implode(',', array_keys(HI{S}::ORDER)), \"\\n\";"),
     ("list_assign", "[$la{S}, $lb{S}] = [1, 2]; echo $la{S}, $lb{S}, \"\\n\";"),
     ("incr_ops", "$u{S} = 1; $u{S}++; ++$u{S}; $u{S} += 3; $u{S} -= 1; $u{S} *= 2; $w{S} = 'a'; $w{S} .= 'b'; echo $u{S}, $w{S}, \"\\n\";"),
     ("uncaught_throw", "echo \"before\\n\"; throw new Exception('uncaught{S}'); echo 'after';"),
@@ -610,7 +616,7 @@ def main(ck):
             p = os.path.join(gen_dir, "x_%s.php" % name)
             write_src(p, src)
             progs[p] = {"kind": "feature", "features": [name], "src": src}
-        combinable = [f for f in FEATURES if f[0] not in ("uncaught_throw", "undefined_function", "exit_code", "namespace_fn", "shutdown_function", "multi_namespace", "user_attribute", "datetime_fixed")
+        combinable = [f for f in FEATURES if f[0] not in ("uncaught_throw", "undefined_function", "exit_code", "namespace_fn", "shutdown_function", "multi_namespace", "user_attribute", "datetime_fixed", "ob_open_at_end_shutdown")
                       and not any(k.startswith("e2e:feature=%s" % f[0]) or k.startswith("reject:feature=%s" % f[0]) or k.startswith("struct:") and f[0] in k for k in ck.known)]
         for c in range(8 if quick else 60):
             chosen = rng.sample(combinable, min(len(combinable), rng.randint(3, 6)))
@@ -998,6 +1004,16 @@ def main(ck):
 
     # ---- the templates the batch engine transcribes are still what the command generates
     tmpl = open(os.path.join(repo, "cmd", "compile", "template.go"), encoding="utf-8").read()
+    # the statements of the generated main() after the loaders, comments and blank lines dropped: the batch engine
+    # (harness/cmd/c16 childRun) transcribes exactly these; any other statement there (seeded C16-8 moved the flush of
+    # open output buffers into main.go) makes the transcription stale
+    main_tail = tmpl.split("defaultMainTmpl", 1)[-1].split("Register(vm)", 1)[-1].split("`", 1)[0]
+    main_stmts = [l.strip() for l in main_tail.split("\n") if l.strip() and not l.strip().startswith("//")]
+    EXPECTED_MAIN = ["{{- if .HasEntry}}", "_, err := vm.RunCompiledFile(EntryPath)", "vm.RunShutdownCallbacks()", "if err != nil {",
+                     'fmt.Fprintf(os.Stderr, "错误: %v\\n", err)', "os.Exit(1)", "}", "{{- end}}", "}"]
+    if main_stmts != EXPECTED_MAIN:
+        ck.violation("template:main-body", {"case": {"kind": "template"}, "impl_out": {"main_after_Register": main_stmts, "transcribed": EXPECTED_MAIN},
+                                            "clause": "the generated main() does something after Register(vm) that the interpreter's RunScriptFile does not (or in another order): RunCompiledFile, RunShutdownCallbacks, exit status"})
     for needle in ("vm.RegisterCompiledFile(EntryPath, func() (data.GetValue, []data.Variable) {", "registerClasses(vm, program)",
                    "_, err := vm.RunCompiledFile(EntryPath)", "vm.RunShutdownCallbacks()", "os.Exit(1)"):
         if needle not in tmpl:
@@ -1007,7 +1023,7 @@ def main(ck):
 
     # ---- real single-program projects from the unmodified generated register.go / main.go / go.mod
     real = [f for f in gen_files if progs[f]["kind"] == "feature"]
-    real = [f for f in real if progs[f]["features"][0] in ("class_const", "try_catch", "uncaught_throw", "exit_code", "namespace_fn", "closure_value", "shutdown_function", "datetime_fixed", "multi_namespace")]
+    real = [f for f in real if progs[f]["features"][0] in ("class_const", "try_catch", "uncaught_throw", "exit_code", "namespace_fn", "closure_value", "shutdown_function", "datetime_fixed", "multi_namespace", "ob_open_at_end_shutdown")]
     if not quick:
         # one real project per feature block + a seeded dozen of the generated families (a project costs ~4 s)
         real = [f for f in gen_files if os.path.basename(f).startswith("f")]
